@@ -49,6 +49,12 @@ def az_jobs(rng, quick):
         add(b"AB" + run + b"cd")
     if quick:
         add(bytes(rng.randrange(128, 256) for _ in range(300)))
+    # stuffing-heavy payloads (long runs of equal bits) with automatic sizing and little error correction: the stuffed length, not the
+    # raw one, decides which sizes fit (compact symbols hold at most 64 data words)
+    for n in (range(40, 76, 2) if quick else range(1, 140)):
+        for fill in (0x00, 0xFF):
+            for pct in ((0, 10) if quick else (0, 5, 10, 23)):
+                add(bytes([fill]) * n, pct, 0)
     # every symbol size through an explicit layer request, payload filling about two thirds of the symbol
     for req in list(range(-4, 0)) + list(range(1, 33)):
         if quick and req > 8 and req % 4 not in (rng.randrange(4),):
